@@ -106,7 +106,7 @@ pub fn arb_method() -> BoxedStrategy<String> {
 	prop_oneof![
 		8 => proptest::sample::select(method_names()).prop_map(|s| s.to_string()),
 		1 => arb_string(8),
-		1 => proptest::sample::select(vec!["", "echo", "echo_sync ", "Echo_sync", "rpc.discover", "é", "echo_sync\u{0}"]).prop_map(|s| s.to_string()),
+		1 => proptest::sample::select(vec!["", "echo", "echo_sync ", "Echo_sync", "rpc.discover", "é", "echo_sync\u{0}", "unsub_a", "unsub_b", "unsub_r"]).prop_map(|s| s.to_string()),
 	]
 	.boxed()
 }
@@ -525,7 +525,7 @@ pub async fn check_message(s: &mut Session, bytes: &[u8], prefer_text: bool, obs
 			}
 		}
 	}
-	let skip_equivalence = matches!(&class, Class::Call { method, .. } if expected_payload(method, None) == Payload::Skip)
+	let skip_equivalence = matches!(&class, Class::Call { method, .. } if matches!(expected_payload(method, None), Payload::Skip | Payload::Bound))
 		|| (is_batch && (find(bytes, b"sub_").is_some() || find(bytes, b"gated_").is_some()));
 	if !skip_equivalence {
 		obs.check(ws_reply == http_reply, "c01/http-and-ws-disagree", || format!("{} => ws {ws_reply:?} http {http_reply:?}", shown()));
@@ -582,7 +582,17 @@ pub async fn check_message(s: &mut Session, bytes: &[u8], prefer_text: bool, obs
 		}
 		Class::Call { id, method, params } => {
 			let want = expected_payload(method, params.as_ref());
-			if want != Payload::Skip {
+			if want == Payload::Bound {
+				// a registered subscription name: over HTTP it cannot be served, over WebSocket a subscription starts -
+				// either way the name is bound and the answer is not "method not found"
+				for (which, r, _) in both {
+					if let Some(v) = r {
+						if let Err(e) = payload_matches(v, &want) {
+							obs.fail(format!("c01/{which}-bound-name-answered-method-not-found"), format!("{} => {v}: {e}", shown()));
+						}
+					}
+				}
+			} else if want != Payload::Skip {
 				for (which, r, log) in both {
 					match r {
 						None => obs.fail(format!("c01/{which}-call-unanswered"), shown()),
